@@ -3,12 +3,14 @@ from contracts import pkey_eq
 
 ID = "C36"
 P = "paramiko.pkey.PKey."
-TARGETS = [P + "__eq__", P + "__hash__", "paramiko.rsakey.RSAKey._fields", P + "_write_private_key_file"]
-REPLAY = {"*": "c36.replay_keys"}
+TARGETS = [P + "__eq__", P + "__hash__", "paramiko.rsakey.RSAKey._fields", P + "_write_private_key_file",
+           "paramiko.ecdsakey.ECDSAKey.asbytes"]
+REPLAY = {"*": "c36.replay_keys", "ECDSAKey.asbytes": "c36.ecdsa_short_coordinate"}
 
 
 def setup(E):
     pkey_eq.declare(E)
+    pkey_eq.declare_ecdsa_blob(E)
 
 
 CLAIMED = True
